@@ -17,7 +17,7 @@ CLAIMS = {
          "from solve are documented/opt-in; exit_info is never None where it is dereferenced; no local can be read before assignment (exceptions frozen with reasons, their "
          "premises such as a parameter lower bound re-checked); every parameter update made by the package itself is guarded so that it cannot be a second update of a key the user set (truth-table entailment for flags); each type validator "
          "accepts only when isinstance(value, type) holds for the value it was given; the restart geometry loop cannot index past its list; the asserted precondition of the coordinate "
-         "initialiser is established by solve for the npt of every run (validation guard + data-flow over later assignments); shapes of x0/bounds/scaling are validated before any arithmetic that combines them; the rhobeg-vs-bound-gap test is made in the coordinates rhobeg lives in; no division of Python-typed numbers by a square root / modulus of data that can vanish is reachable from solve without a test or floor on every path (ZeroDivisionError), and a parameter used as such a denominator has a range that excludes zero; no assert in solve reads one of its arguments; a try around a float-to-int conversion of a quotient that handles NaN (ValueError) also handles infinity (OverflowError); every cycle of solve_main's loop passes a call that reaches the objective, reduce_rho or a restart (structural premise of termination). Not a claim about implicit NumPy/SciPy exceptions.",
+         "initialiser is established by solve for the npt of every run (validation guard + data-flow over later assignments); shapes of x0/bounds/scaling are validated before any arithmetic that combines them; the rhobeg-vs-bound-gap test is made in the coordinates rhobeg lives in; no division of Python-typed numbers by a square root / modulus of data that can vanish is reachable from solve without a test or floor on every path (ZeroDivisionError), and a parameter used as such a denominator has a range that excludes zero; no assert in solve reads one of its arguments; a try around a float-to-int conversion of a quotient that handles NaN (ValueError) also handles infinity (OverflowError); every cycle of solve_main's loop passes a call that reaches the objective, reduce_rho or a restart (structural premise of termination), every other while loop is ended by a counter, an exit object returned by a call in the main loop is tested before the loop goes round, and a Gram-Schmidt result is tested before it is normalised. Not a claim about implicit NumPy/SciPy exceptions.",
          "Trusted: CPython ast, purpose-built receiver resolution (0 unresolved calls, reported in evidence), frozen table of documented invalid-argument classes in dfv/tables.py.",
          "DESIGN.md 4/C07"),
  "C20": ("AST table agreement (to_dict / from_dict / __init__ / __str__), nullable-flow of None->NaN per field, belief-based (contradiction) guard analysis on __str__'s CFG, "
@@ -60,7 +60,7 @@ CLAIMS = {
          "finiteness-checking scipy.linalg routines in logging-only code",
          "Static decision that selection is NaN-total (a NaN candidate never replaces a finite holder, a finite candidate replaces a NaN holder, empty slot filled, "
          "guard never raises; each row decided by walking the CFG to the store), that arg-min over stored objective values ignores NaN and the re-selection after a re-sample cannot be "
-         "skipped, that no try statement can swallow an exception raised by the user's objective, that code running only under a logging option cannot raise on non-finite data, and that every step solver is reached only after the interpolated model was tested finite. "
+         "skipped, that no try statement can swallow an exception raised by the user's objective, that code running only under a logging option cannot raise on non-finite data, that every step solver is reached only after the interpolated model was tested finite, and that the projected step solvers never divide by a norm of the model Hessian that can vanish (zero Jacobian: NaN step, ValueError out of solve). "
          "Termination / finiteness of the returned x under faults are not decided.",
          "Trusted: IEEE comparison semantics of NaN as implemented in the table evaluator; numpy.nanargmin ignores NaN.",
          "DESIGN.md 4/C08"),
